@@ -374,8 +374,9 @@ impl<'a, 'src> ExpressionParser<'a, 'src>
 
 		let size = self.parse_leaf()?;
 
+		// The whole expression: operand, grave and size
 		Ok(expr::Expr::SliceShort(
-			tk_grave_span.join(size.span()),
+			inner.span().join(tk_grave_span).join(size.span()),
 			size.span(),
 			Box::new(size),
 			Box::new(inner)))
